@@ -81,7 +81,7 @@ CLAIMED["C02"] = {
   "technique": "Coq proof (name isolation, call order, simulation of function definitions and call sites) + execution against a reference interpreter",
 }
 CLAIMED["C03"] = {
-  "text": "Theorems on the reference semantics: element assignment grows and zero-fills exactly as stated, substrings have Go's meaning; emitted structure. "
+  "text": "Theorems on the reference semantics (17): element assignment grows and zero-fills exactly as stated; copy stores src[i] at every i < len(src) and keeps the tail of a longer destination; a store through a slice id is what every holder of the id reads, no other slice and nothing but the heap changes, new slices get fresh ids; substrings have Go's meaning (whole string, single byte, adjacent substrings concatenate, cut of a concatenation); emitted structure. "
           "Slice/string behaviour of the emitted script decided by executing generated programs (aliasing, growth, copy, range, subscripts) against Sem/Src.v.",
   "ref": "DESIGN.md section 5/C03",
   "note": "PARTIAL: the shell-side representation of slices (eval, _dv<n>) is tested, not proved.",
